@@ -2,6 +2,7 @@ package checks
 
 // Registry maps property ids to their check entry points.
 var Registry = map[string]func(tier string) int{
+	"C01": C01,
 	"C03": C03,
 	"C08": C08,
 	"C10": C10,
